@@ -1,4 +1,5 @@
 import OjgVerif.Sen.LemmasReset
+import OjgVerif.Sen.LemmasKey
 import OjgVerif.Gen.SenFacts
 /-! # C07 (SEN clause) — a reused sen.Parser behaves like a fresh one (model level)
 
@@ -19,15 +20,17 @@ entry points perform.
   position, every chunking) depends on the previous state only through `lastKey`;
 * `reused_like_fresh_partial`: a sen.Parser whose `lastKey` is empty behaves exactly like a fresh one,
   whatever else the previous calls left behind (including a pending `+`).
+* `reused_like_fresh` (`_sen`, `reused_like_fresh_full_current`): **the full statement for the code as it
+  is** — a stale `lastKey` is harmless too (`Sen.call_lastKey_ref`, a simulation: `lastKey` is dead while
+  every open map on the build stack is empty, and storing a member overwrites it), so a call on a reused
+  sen.Parser ANSWERS what a call on a fresh one answers (documents, error kind, line, column), whatever
+  the previous calls left. What differs is only the `lastKey` / `lastStrKey` the instance is left with.
 * BEFORE ece2934 (`keepPlus := true`): `reused_like_fresh_before_false` — with `plus` left set by a
   failed call, `[x "a"]` parsed to `["xa"]` (finding C07sen-plus-not-reset), and `plus_survived_before`.
 
-NOT a theorem (`reused_like_fresh_full` stays open, no counterexample known): that a non-empty `lastKey`
-is harmless (it is only read by a `+`, which copies it into `lastStrKey`, and the string that follows
-looks it up in the map on top of the stack — which is empty until a member of this call has been stored
-and has overwritten `lastKey`); this is decided by the correspondence run: random call histories on one
-sen.Parser, each call compared with a fresh parser and with the model started from the `lastKey` the
-model says the previous call left. -/
+NOT a theorem: the tokenizer profile (false as it is, see the end of the file), the Reuse map recycling, that
+the Go code behaves like the model. These are decided by the correspondence run: random call histories on
+one sen.Parser / one sen.Tokenizer, each call compared with a fresh instance and with the model. -/
 namespace OjgVerif.C07sen
 open OjgVerif OjgVerif.Sen
 
@@ -133,6 +136,42 @@ example : ∃ prev : St, prev.ri = 3 ∧ prev.rn = 55357 ∧ prev.quoteDelim = 3
      lastStrKey := [97] }, rfl, rfl, rfl, rfl, rfl, rfl, rfl, rfl⟩
 
 example : Current {} := ⟨rfl, rfl, rfl⟩
+
+/-! ## the full statement for the code as it is -/
+
+/-- what a call answers: documents / callbacks, error kind and position, deviation marks — without the
+`lastKey` / `lastStrKey` the instance is left with -/
+theorem answer_docs (r : Except Err Out) :
+    (match answer r with | .ok o => o.docs.map JV.render | .error _ => ["error"]) =
+    (match r with | .ok o => o.docs.map JV.render | .error _ => ["error"]) := by
+  cases r <;> rfl
+
+/-- **C07 (SEN parser), full form for the code as it is**: a call on a reused sen.Parser answers exactly what
+the same call on a fresh one answers — same documents, same error kind, line and column — whatever state
+(`plus`, `lastStrKey`, `lastKey`, `ri`, `rn`, number accumulator, `quoteDelim`) the previous calls left,
+for every configuration, input and chunking, over every table set that passes `TablesOK` -/
+theorem reused_like_fresh {T : Tables} (hT : TablesOK T) (cfg : Cfg) (hc : cfg.tokenizer = false) (hcur : Current cfg)
+    (prev : St) (chunks : List Bytes) : answer (call T cfg prev chunks) = answer (run T cfg chunks) := by
+  unfold run
+  rw [call_eq_ref hT, call_eq_ref hT]
+  rw [call_lastKey_ref cfg hc hcur.2.1 hcur.2.2 hcur.1 prev [] chunks]
+  rw [call_congr_ref cfg hc hcur.2.1 hcur.2.2 { prev with lastKey := [] } {}
+    (fun hk => by rw [hcur.1] at hk; cases hk) rfl (fun hk => by rw [hcur.1] at hk; cases hk) chunks]
+
+/-- the same over the regenerated `sen/maps.go` -/
+theorem reused_like_fresh_sen (cfg : Cfg) (hc : cfg.tokenizer = false) (hcur : Current cfg) (prev : St)
+    (chunks : List Bytes) : answer (call senTables cfg prev chunks) = answer (run senTables cfg chunks) :=
+  reused_like_fresh senTables_ok cfg hc hcur prev chunks
+
+/-- the full statement holds for the code as it is -/
+theorem reused_like_fresh_full_current : reused_like_fresh_full {} := by
+  intro prev chunks
+  have hT : TablesOK refTables := ⟨fun _ _ => rfl, fun _ => rfl, fun _ _ => rfl, rfl, rfl⟩
+  have h := reused_like_fresh hT {} rfl ⟨rfl, rfl, rfl⟩ prev chunks
+  have e1 := answer_docs (call refTables {} prev chunks)
+  have e2 := answer_docs (run refTables {} chunks)
+  rw [h] at e1
+  exact e1.symm.trans e2
 
 /-! ## sen.Tokenizer -/
 
